@@ -271,6 +271,15 @@ package object
 //@ ensures[C11.override.others] forallA(k, string, k != name ==> haskey(m.builtins, k) == old(haskey(m.builtins, k)) && haskey(m.globalsIndex, k) == old(haskey(m.globalsIndex, k)) && m.builtins[k] == old(m.builtins[k]))
 //@ ensures[C11.override.noadd] !old(mhasattr(m, name)) ==> !mhasattr(m, name)
 
+// ---- C14: a module object shares the globals of its running code ------------------------------------------------
+// vm.importModule hands the globals slice of the module's code to UseGlobals so that the module object and the
+// module's own functions see one state: every importer reads the live value of a module variable. The module must
+// hold that very slice, not a copy of it (seed C14d copied the elements: importers saw a snapshot).
+//@ func (*Module).UseGlobals
+//@ props C14
+//@ assume[recv.nonnil] m != nil
+//@ ensures[C14.useglobals.shared] same(m.globals, globals)
+
 // ---- C10: a spawned call gets its own copy of the argument values ------------------------------------------------
 // Every call of the spawn function passes a freshly allocated slice that holds exactly the caller's argument
 // values (so later writes to the caller's slice cannot reach the spawned call).
